@@ -20,7 +20,7 @@ ASSUMPTIONS = ["the responder double (dissononce HandshakeState, initiator=False
                "a hang is decided by a stable blocked state (all handshake workers parked in an untimed wait with every stimulus delivered); a plain timeout is inconclusive"]
 REQUIRED = ["handshakes", "variant:XX", "variant:IK", "variant:XXfallback", "transport_reached", "frames_c2s", "frames_s2c",
             "history:retry-after-cutoff", "history:corrupt-reply", "failure_reported", "key_persisted", "yields_injected",
-            "glued_frames_cases"]
+            "glued_frames_cases", "completion_race_ok", "completion_race_released_mid_delivery", "completion_race_sweeps"]
 TIMEOUT = {"quick": 300, "thorough": 3600}
 
 YIELD_FILES = ("yowsup/layers/noise/layer.py", "yowsup/layers/noise/workers/handshake.py", "yowsup/layers/noise/layer_noise_segments.py",
@@ -64,6 +64,16 @@ def chunks_for(r, data, style):
     n = len(data)
     if style[0] == "whole":
         return [data]
+    if style[0] == "frames":
+        # one chunk per frame (what TCP usually does): len3-prefixed frames, the reply first, then each transport frame
+        out, i = [], 0
+        while i + 3 <= n:
+            ln = (data[i] << 16) | (data[i + 1] << 8) | data[i + 2]
+            out.append(data[i:i + 3 + ln])
+            i += 3 + ln
+        if i < n:
+            out.append(data[i:])
+        return [c for c in out if c]
     if style[0] == "bytes":
         # byte by byte over the handshake reply and the first frame headers; the bulk of long frames in random cuts
         head = [data[i:i + 1] for i in range(min(n, 500))]
@@ -281,6 +291,19 @@ class Case(object):
         fails = len([n for n in T.top.received if getattr(n, "tag", None) == "failure"])
         if fails > n_fail_before:
             return self.fail("login-failed:%s" % history, "handshake completed on the server but the client reported a failure (history %s)" % history)
+        if self.s2c_expected:
+            # the frames sent around completion must be up before anything else is sent: once the network thread is idle and
+            # the handshake worker has ended or is parked, no thread is left that could still deliver them
+            def n_up():
+                return len([n for n in T.top.received if getattr(n, "tag", None) == "iq"])
+            if not T.wait(lambda: n_up() >= len(self.s2c_expected), 3):
+                quiet = T.wait(lambda: self.workers_idle(), 10) and self.sync(T, srv)
+                time.sleep(0.2)
+                if quiet and self.workers_idle() and n_up() < len(self.s2c_expected):
+                    self.w["stranded_in_queue"] = T.noise._incoming_segments_queue.qsize() if hasattr(T.noise, "_incoming_segments_queue") else None
+                    return self.fail("s2c-stranded-at-completion", "server frames that arrived while the handshake completed stay undelivered with every thread idle "
+                                     "(%d of %d arrived; they would only move when the server sends something else)" % (n_up(), len(self.s2c_expected)))
+            acc.count("completion_frames_checked_before_traffic")
         # traffic both ways
         c2s = []
         for i in range(d["traffic"]):
@@ -371,12 +394,149 @@ def refc():
     return refcodec
 
 
+# ---------------------------------------------------------------------------------------------
+# frames arriving at the very moment the handshake completes: the worker's completion placed at every line boundary of the
+# network thread's delivery
+def completion_race_once(acc, seed, tag, variant, k, per_frame):
+    """One fresh login. The handshake worker is held inside its last write (client finish; a socket write may block), so the
+    server can already encrypt while the client is still in the handshake. The network thread then delivers transport
+    frames; at its k-th line event inside the noise layer the worker is released and runs to completion before the network
+    thread continues (k=None: count the line events only, release afterwards). Returns (ok, line events seen)."""
+    import sys
+    from vf import tstack, noisepeer, refcodec
+    r = gen.rng(seed, ID, tag)
+    _counter[0] += 1
+    name = "c04r_%d_%d" % (threading.get_native_id(), _counter[0])
+    server_static = noisepeer.gen_static()
+    stored = noisepeer.gen_static().public.data if variant == "XXfallback" else None
+    prof = tstack.make_profile(name, phone="49" + gen.s_from(r, gen.DIGITS, 10), server_static=stored)
+    T = tstack.Transport(prof)
+    srv = noisepeer.NoiseServer(static=server_static)
+    w = {"tag": tag, "variant": variant, "k": k, "per_frame": per_frame, "kind": "completion-race"}
+    finish_written, release = threading.Event(), threading.Event()
+    worker_ident = [None]
+
+    def after_feed(b):
+        if srv.state == "transport" and not finish_written.is_set():
+            worker_ident[0] = threading.get_ident()
+            finish_written.set()
+            release.wait(10)
+    T.wire.after_feed = after_feed
+    mon = sys.monitoring
+    seen = [0]
+    fired = [False]
+    try:
+        T.attach(srv)
+        T.auth(passive=False)
+        if not T.wait(lambda: len(srv.out) > 0 or srv.state == "error", 20) or srv.state == "error":
+            acc.inconc("%s: no client hello" % tag)
+            return False, 0
+        T.deliver(srv.take_out())
+        if not finish_written.wait(20):
+            acc.inconc("%s: client finish never written (server state %s)" % (tag, srv.state))
+            return False, 0
+        expected = []
+        frames = []
+        for i in range(3):
+            st = stanza(r, "g%d" % i)
+            expected.append(st)
+            frames.append(srv.encrypt(refcodec.encode_canonical(st)))
+
+        def worker_done():
+            from vf import probes
+            st = probes.thread_states()
+            ws = [s_ for n, s_ in st.items() if any(f[0] in ("handshake.py",) for f in s_)]
+            return all(probes.parked_forever(s_) for s_ in ws)
+
+        def cb(code, lineno):
+            if not code.co_filename.endswith("yowsup/layers/noise/layer.py"):
+                return mon.DISABLE
+            if threading.current_thread() is not T.net:
+                return None
+            seen[0] += 1
+            if k is not None and seen[0] == k and not fired[0]:
+                fired[0] = True
+                w["released_at"] = "%s:%d" % (code.co_name, lineno)
+                release.set()
+                t0 = time.time()
+                while time.time() - t0 < 2.0 and not worker_done():
+                    time.sleep(0.0005)
+        try:
+            mon.use_tool_id(inject.TOOL, "vf-race")
+        except ValueError:
+            mon.free_tool_id(inject.TOOL)
+            mon.use_tool_id(inject.TOOL, "vf-race")
+        mon.register_callback(inject.TOOL, mon.events.LINE, cb)
+        mon.set_events(inject.TOOL, mon.events.LINE)
+        mon.restart_events()
+        try:
+            for ch in (frames if per_frame else [b"".join(frames)]):
+                T.deliver(ch)
+            res = T.net_sync(20)
+        finally:
+            mon.set_events(inject.TOOL, 0)
+            mon.register_callback(inject.TOOL, mon.events.LINE, None)
+            mon.free_tool_id(inject.TOOL)
+        release.set()
+        if res != "ok":
+            if res == "raised":
+                err = T.net.errors[0]
+                acc.violation("completion-race:receive-raises:%s" % err[0], "delivering a frame while the handshake completes raised %s(%s)" % (err[0], err[1]), w)
+            elif res == "blocked":
+                acc.violation("completion-race:net-thread-blocked", "the network thread blocks forever delivering a frame while the handshake completes", w)
+            else:
+                acc.inconc("%s: network thread busy" % tag)
+            return False, seen[0]
+
+        def n_up():
+            return len([n for n in T.top.received if getattr(n, "tag", None) == "iq"])
+        if not T.wait(lambda: n_up() >= 3, 3):
+            T.wait(worker_done, 10)
+            time.sleep(0.2)
+            if worker_done() and T.net.idle() and n_up() < 3:
+                acc.violation("completion-race:stranded", "frames delivered while the handshake completed (worker finishing at line event %s of the network thread's "
+                              "delivery, %s) stay undelivered with every thread idle: %d of 3 arrived" % (k, w.get("released_at"), n_up()), w)
+                return False, seen[0]
+            if n_up() < 3:
+                acc.inconc("%s: frames not up yet, threads not idle" % tag)
+                return False, seen[0]
+        ups = [n for n in T.top.received if getattr(n, "tag", None) == "iq"]
+        for i, (a, b) in enumerate(zip(expected, ups)):
+            df = treeeq.diff(a, b)
+            if df:
+                acc.violation("completion-race:differs-or-reordered", "frame %d delivered at completion differs or is out of order: %s" % (i, df), w)
+                return False, seen[0]
+        if len(ups) != 3:
+            acc.violation("completion-race:extra", "%d stanzas arrived for 3 sent" % len(ups), w)
+            return False, seen[0]
+        acc.count("completion_race_ok")
+        if fired[0]:
+            acc.count("completion_race_released_mid_delivery")
+            acc.seen("completion_race_points", w.get("released_at"))
+        acc.case(["race", variant, k, per_frame], nontrivial=fired[0])
+        return True, seen[0]
+    finally:
+        release.set()
+        T.wire.after_feed = None
+        T.close()
+
+
+def completion_race_sweep(acc, seed, tag, variant, per_frame, stride=1):
+    ok, n = completion_race_once(acc, seed, tag + "/count", variant, None, per_frame)
+    if not ok:
+        return
+    acc.maxi("completion_race_line_events", n)
+    for k in range(1, n + 1, stride):
+        completion_race_once(acc, seed, "%s/k%d" % (tag, k), variant, k, per_frame)
+    acc.count("completion_race_sweeps")
+
+
 def make_desc(r, variant=None, history=None, style=None):
     variant = variant or r.choice(["XX", "IK", "XXfallback"])
     history = history or r.choice(HISTORIES)
     if style is None:
         c = r.random()
-        style = ["whole"] if c < 0.1 else ["bytes"] if c < 0.2 else ["split1", r.randrange(1000)] if c < 0.5 else ["split2", r.randrange(1000), r.randrange(1000)] if c < 0.7 else ["random", r.choice([2, 3, 5, 9])]
+        style = ["whole"] if c < 0.08 else ["frames"] if c < 0.25 else ["bytes"] if c < 0.32 else ["split1", r.randrange(1000)] if c < 0.5 else ["split2", r.randrange(1000), r.randrange(1000)] if c < 0.7 else ["random", r.choice([2, 3, 5, 9])]
     return {"variant": variant, "history": history, "style": style, "edge": r.random() < 0.5, "passive": r.random() < 0.3,
             "pushname": r.choice([None, "Verif", "Jörg 😀", ""]) , "profile_dir": r.random() < 0.6,
             "timing": r.choice(["immediate", "jitter", "parked"]), "yseed": r.randrange(1 << 30), "yp": r.choice([0, 0.02, 0.1, 0.3]),
@@ -390,6 +550,8 @@ def shards(tier, seed, nworkers):
     for i in range(nsh):
         specs.append({"kind": "splits", "part": [i, nsh], "step": 7 if q else 1})
         specs.append({"kind": "random", "shard": i, "n": (270 if q else 40000) // nsh})
+    for i, (variant, per_frame) in enumerate([("XX", False), ("XX", True), ("XXfallback", False), ("XXfallback", True)]):
+        specs.append({"kind": "race", "variant": variant, "per_frame": per_frame, "sweeps": 1 if q else 12})
     return specs
 
 
@@ -411,6 +573,11 @@ def run(spec, acc):
                 d.update(glue=2, traffic=2, yp=r.choice([0, 0.05]))
                 Case(acc, seed, tag, d).run()
         acc.sample({"splits": "handshake reply of each variant cut at split point p, p stepping by %d" % spec["step"]})
+        return
+    if spec["kind"] == "race":
+        for j in range(spec["sweeps"]):
+            completion_race_sweep(acc, seed, "race/%s/%s/%d" % (spec["variant"], spec["per_frame"], j), spec["variant"], spec["per_frame"])
+        acc.sample({"completion_race": "worker completion placed at every line event of the network thread's delivery", "variant": spec["variant"], "per_frame": spec["per_frame"]})
         return
     for i in range(spec["n"]):
         tag = "rand/%d/%d" % (spec["shard"], i)
